@@ -128,7 +128,7 @@ pub fn rhs(u: &mut Unstructured) -> Rhs {
 }
 
 pub fn hint(u: &mut Unstructured) -> Hint {
-    [Hint::Exact, Hint::Zero, Hint::Partial][below(u, 3)]
+    [Hint::Exact, Hint::Zero, Hint::Partial, Hint::LooseUpper][below(u, 4)]
 }
 
 /// mode: 0 = whole API (C03), 1 = edits only (C07), 2 = capacity-heavy (C18)
@@ -247,7 +247,7 @@ pub fn c17(u: &mut Unstructured) -> C17Case {
             _ => Call::SizeHint,
         });
     }
-    C17Case { a, into_iter, rev, calls, term }
+    C17Case { a, into_iter, rev, calls, term, giant: None }
 }
 
 /// Arbitrary (lossily decoded) UTF-8 text for the parsers.
